@@ -22,6 +22,9 @@ pub(crate) struct Dg {
     pub sport: Option<u16>,
     /// UDP checksum field 0 = "no checksum" (legal over IPv4)
     pub zero_cksum: bool,
+    /// per cut: octets of IPv4 options (NOP padding, multiple of 4) in that fragment's header;
+    /// empty = no fragment carries options
+    pub opts: Vec<u8>,
 }
 
 #[derive(Clone, Debug)]
@@ -48,6 +51,14 @@ impl Dg {
             d
         }
     }
+    /// the `c`-th fragment of this datagram as an IPv4 packet (with its options, if any)
+    pub(crate) fn frag(&self, proto: u8, payload: &[u8], c: usize) -> Vec<u8> {
+        let f = fragment(self.id, proto, PEER_IP, self.dst, payload, &[self.cuts[c]]).pop().unwrap();
+        match self.opts.get(c) {
+            Some(&n) if n > 0 => with_options(&f, n as usize),
+            _ => f,
+        }
+    }
     fn sport(&self, idx: usize) -> u16 {
         self.sport.unwrap_or(RX_SPORT_BASE + idx as u16)
     }
@@ -55,11 +66,11 @@ impl Dg {
         self.dst == OUR_IP
     }
     fn plain(id: u16, len: usize, salt: u32, cuts: Vec<(usize, usize)>) -> Dg {
-        Dg { id, len, salt, cuts, dst: OUR_IP, sport: None, zero_cksum: false }
+        Dg { id, len, salt, cuts, dst: OUR_IP, sport: None, zero_cksum: false, opts: vec![] }
     }
     fn to_json(&self) -> Value {
         json!({"id": self.id, "len": self.len, "salt": self.salt, "cuts": self.cuts.iter().map(|c| json!([c.0, c.1])).collect::<Vec<_>>(),
-            "dst": self.dst, "sport": self.sport, "zero_cksum": self.zero_cksum})
+            "dst": self.dst, "sport": self.sport, "zero_cksum": self.zero_cksum, "opts": self.opts})
     }
 }
 
@@ -90,7 +101,7 @@ pub(crate) fn run_case(fam: &Family, order: &[u8]) -> RxResult {
     for &it in order {
         let (d, c) = fam.items[it as usize];
         let dg = &fam.dgs[d as usize];
-        let f = fragment(dg.id, proto, PEER_IP, dg.dst, &payloads[d as usize], &[dg.cuts[c as usize]]).pop().unwrap();
+        let f = dg.frag(proto, &payloads[d as usize], c as usize);
         net.inject(f);
         net.poll();
     }
@@ -492,6 +503,32 @@ pub(crate) fn families(tier: Tier) -> Vec<Family> {
             }
         }
     }
+    // --- IPv4 options (IHL > 5) in some of the fragments: the header length of every
+    // fragment is its own; every non-empty subset of fragments carries 4 (thorough: also 8, 40)
+    // octets of NOP options; all arrival orders
+    for n in 2..=(if thorough { 4 } else { 3 }) {
+        for (piece, last) in [(8usize, 8usize), (16, 5)] {
+            let (t, c) = cuts_of(n, piece, last);
+            let items: Vec<(u8, u8)> = (0..c.len()).map(|i| (0u8, i as u8)).collect();
+            let optlens: &[u8] = if thorough { &[4, 8, 40] } else { &[4] };
+            for &ol in optlens {
+                for mask in 1u32..(1 << n) {
+                    for raw in [false, true] {
+                        let mut dg = Dg::plain(0x3300, t, 7, c.clone());
+                        dg.opts = (0..n).map(|i| if mask >> i & 1 == 1 { ol } else { 0 }).collect();
+                        v.push(Family {
+                            class: "fragments-with-ip-options",
+                            raw,
+                            eth: false,
+                            label: format!("fragments-with-ip-options {} ip {}B {}x{}+{} option octets per fragment {:?}", if raw { "raw" } else { "udp" }, t, n - 1, piece, last, dg.opts),
+                            dgs: vec![dg],
+                            items: items.clone(),
+                        });
+                    }
+                }
+            }
+        }
+    }
     // large datagrams around REASSEMBLY_BUFFER_SIZE
     let rbs = smoltcp::config::REASSEMBLY_BUFFER_SIZE;
     if rbs >= 600 {
@@ -589,8 +626,8 @@ pub(crate) fn families(tier: Tier) -> Vec<Family> {
                             if raw { "n/a" } else if zero { "0 (none)" } else { "valid" }
                         ),
                         dgs: vec![
-                            Dg { id: 0x3300, len: total, salt: 7, cuts: cut(n), dst: OUR_IP, sport: Some(RX_SPORT_BASE), zero_cksum: zero },
-                            Dg { id: 0x3300, len: total, salt: 9, cuts: cut(m), dst: other, sport: Some(RX_SPORT_BASE), zero_cksum: zero },
+                            Dg { id: 0x3300, len: total, salt: 7, cuts: cut(n), dst: OUR_IP, sport: Some(RX_SPORT_BASE), zero_cksum: zero, opts: vec![] },
+                            Dg { id: 0x3300, len: total, salt: 9, cuts: cut(m), dst: other, sport: Some(RX_SPORT_BASE), zero_cksum: zero, opts: vec![] },
                         ],
                         items: items.clone(),
                     });
@@ -678,6 +715,7 @@ pub(crate) fn replay(r: &Value) -> i32 {
                     },
                     sport: d["sport"].as_u64().map(|p| p as u16),
                     zero_cksum: d["zero_cksum"].as_bool().unwrap_or(false),
+                    opts: d["opts"].as_array().map(|a| a.iter().map(|x| x.as_u64().unwrap_or(0) as u8).collect()).unwrap_or_default(),
                 })
             })
             .collect::<Option<Vec<_>>>()?;
@@ -689,6 +727,7 @@ pub(crate) fn replay(r: &Value) -> i32 {
             "overlapping-retransmission" => "overlapping-retransmission",
             "interleaved-datagrams" => "interleaved-datagrams",
             "same-key-different-destination" => "same-key-different-destination",
+            "fragments-with-ip-options" => "fragments-with-ip-options",
             _ => "range-limit",
         };
         Some((
@@ -755,8 +794,8 @@ pub(crate) struct ExpiryCase {
 impl ExpiryCase {
     fn family(&self) -> Family {
         let (total, cuts) = cuts_of(self.n, 8, 5);
-        let x = Dg { id: 0x3300, len: total, salt: 7, cuts: cuts.clone(), dst: OUR_IP, sport: Some(RX_SPORT_BASE), zero_cksum: self.zero_cksum };
-        let y = Dg { id: if self.same_id { 0x3300 } else { 0x3301 }, len: total, salt: 9, cuts, dst: OUR_IP, sport: Some(RX_SPORT_BASE), zero_cksum: self.zero_cksum };
+        let x = Dg { id: 0x3300, len: total, salt: 7, cuts: cuts.clone(), dst: OUR_IP, sport: Some(RX_SPORT_BASE), zero_cksum: self.zero_cksum, opts: vec![] };
+        let y = Dg { id: if self.same_id { 0x3300 } else { 0x3301 }, len: total, salt: 9, cuts, dst: OUR_IP, sport: Some(RX_SPORT_BASE), zero_cksum: self.zero_cksum, opts: vec![] };
         Family { class: "expired-then-reused", raw: self.raw, eth: false, dgs: vec![x, y], items: vec![], label: self.label() }
     }
     fn label(&self) -> String {
@@ -809,7 +848,7 @@ pub(crate) fn run_expiry_case(c: &ExpiryCase) -> (RxResult, i64) {
     let t0 = Instant::from_millis(0);
     for &i in &c.x_order {
         let dg = &fam.dgs[0];
-        net.inject(fragment(dg.id, proto, PEER_IP, dg.dst, &payloads[0], &[dg.cuts[i as usize]]).pop().unwrap());
+        net.inject(dg.frag(proto, &payloads[0], i as usize));
         net.poll_t(t0);
     }
     // nothing may have been delivered yet; then the clock jumps (a poll without traffic lets
@@ -818,7 +857,7 @@ pub(crate) fn run_expiry_case(c: &ExpiryCase) -> (RxResult, i64) {
     net.poll_t(t1);
     for &i in &c.y_order {
         let dg = &fam.dgs[1];
-        net.inject(fragment(dg.id, proto, PEER_IP, dg.dst, &payloads[1], &[dg.cuts[i as usize]]).pop().unwrap());
+        net.inject(dg.frag(proto, &payloads[1], i as usize));
         net.poll_t(t1);
     }
     net.poll_t(t1);
